@@ -310,6 +310,14 @@ def job_expansions(K):
         if K >= 5:
             w += g3 * (z ** 4 - 6 * z ** 2 + 3) / 120 - g1 * g2 * (z ** 4 - 5 * z ** 2 + 2) / 24 + g1 ** 3 * (12 * z ** 4 - 53 * z ** 2 + 17) / 324
         C.identity(sp.expand(cf), sp.expand(kap[1] + s * w), assume, f"cornish-fisher(K={K})", f"CornishFisher|K={K}", f"Cornish-Fisher expansion from {K} cumulants", mutant=True)
+        # a second expansion in the same process (another random variable): nothing of the first one may survive.  The
+        # cumulants of the standard normal give the quantile z itself, those of mean 3 / variance 4 give 3 + 2z
+        for kv, expect in (({i: (1 if i == 2 else 0) for i in range(1, K + 1)}, z), ({i: (3 if i == 1 else 4 if i == 2 else 0) for i in range(1, K + 1)}, 3 + 2 * z)):
+            with polar_iface.time_limit(60):
+                cf2 = sp.sympify(CornishFisherExpansion({i: sp.Integer(v) for i, v in kv.items()})())
+            cf2 = sp.simplify(cf2.xreplace({sp.erfinv(2 * p - 1): z / sp.sqrt(2)}))
+            C.identity(sp.expand(cf2), sp.expand(expect), assume, f"cornish-fisher(K={K}):second", f"CornishFisher|K={K}|after-another-expansion",
+                       f"Cornish-Fisher expansion of a normal law computed after another expansion in the same process")
     except polar_iface.JobTimeout:
         C.records.append({"kind": "inconclusive", "tag": f"cornish-fisher(K={K})", "why": "timeout"})
     except Exception as e:  # noqa
